@@ -42,16 +42,33 @@ Clause(c) ==
      ELSE IF c.raised THEN "valid_input_raises"
      ELSE IF Len(c.mesh) # ny \/ Len(c.mesh[1]) # nx THEN "mesh_shape_is_ceil_of_shape_over_box"
      ELSE IF \E r \in 0..(ny - 1), q \in 0..(nx - 1) : c.npix[r + 1][q + 1] # Cardinality(good(r, q)) THEN "npixels_mesh_counts_good_pixels_of_each_box"
-     ELSE IF \E rq \in incl : LET g == good(rq[1], rq[2])  n == Cardinality(g) IN
-               IF c.estimator = "median" THEN ~Near(2 * meshv(rq[1], rq[2]), S * Median2(v, g), 3)
-               ELSE ~Near(meshv(rq[1], rq[2]) * n, S * SumF(v, g), 2 * n) THEN "mesh_value_is_estimator_of_clipped_good_pixels"
+     \* estimators as rational combinations of the median m2/2 and the mean sum/n of the clipped good pixels:
+     \*   MMM and Mode (3, 2):  3 median - 2 mean;   SExtractor: mean if std = 0, median if |mean - median| >= 0.3 std, else 2.5 median - 1.5 mean
+     ELSE IF \E rq \in incl : LET g == good(rq[1], rq[2])  n == Cardinality(g)  m2 == Median2(v, g)  sum == SumF(v, g)  val == meshv(rq[1], rq[2])
+                                   L == 2 * sum - n * m2            \* 2 n (mean - median)
+                                   R == n * SumSqF(v, g) - sum * sum \* n^2 variance
+                                   NA(x) == IF x < 0 THEN -x ELSE x
+                               IN
+               CASE c.estimator = "median" -> ~Near(2 * val, S * m2, 3)
+                 [] c.estimator = "mean" -> ~Near(val * n, S * sum, 2 * n)
+                 [] c.estimator \in {"mmm", "mode"} -> ~Near(2 * n * val, S * (3 * n * m2 - 4 * sum), 6 * n)
+                 [] c.estimator = "sextractor" ->
+                      IF R = 0 THEN ~Near(val * n, S * sum, 2 * n)
+                      ELSE IF NA(L) >= 4000 \/ R >= 200000000 THEN FALSE                       \* outside 32-bit range: not decided
+                      ELSE IF 25 * L * L = 9 * R THEN FALSE                                      \* exactly on the switch: don't care
+                      ELSE IF 25 * L * L > 9 * R THEN ~Near(2 * val, S * m2, 3)
+                      ELSE ~Near(4 * n * val, S * (5 * n * m2 - 6 * sum), 12 * n)
+          THEN "mesh_value_is_estimator_of_clipped_good_pixels"
      ELSE IF \E r \in 0..(ny - 1), q \in 0..(nx - 1) : excl(r, q) /\ (meshv(r, q) < lo - 2 \/ meshv(r, q) > hi + 2) THEN "excluded_mesh_interpolated_within_range"
      ELSE IF \E r \in 0..(ny - 1), q \in 0..(nx - 1) : excl(r, q) /\
                (c.rmsmesh[r + 1][q + 1] < Min({c.rmsmesh[rq[1] + 1][rq[2] + 1] : rq \in incl}) - 2
                 \/ c.rmsmesh[r + 1][q + 1] > Max({c.rmsmesh[rq[1] + 1][rq[2] + 1] : rq \in incl}) + 2) THEN "excluded_rms_mesh_interpolated_within_range"
      \* default RMS estimator: population standard deviation of the clipped good pixels (checked for boxes of <= 25 good pixels; 1/32 units)
      ELSE IF \E rq \in incl : LET g == good(rq[1], rq[2])  n == Cardinality(g)  x == c.rmsmesh[rq[1] + 1][rq[2] + 1] \div 32 IN
-               n <= 25 /\ ~Near(x * x * n * n, 1024 * (n * SumSqF(v, g) - SumF(v, g) * SumF(v, g)), (2 * x + 2) * n * n + 1024) THEN "rms_mesh_is_std_of_clipped_good_pixels"
+               c.rmsest = "std" /\ n <= 25 /\ ~Near(x * x * n * n, 1024 * (n * SumSqF(v, g) - SumF(v, g) * SumF(v, g)), (2 * x + 2) * n * n + 1024) THEN "rms_mesh_is_std_of_clipped_good_pixels"
+     \* MADStdBackgroundRMS = 1.482602... x median(|x - median|); the harness records the mesh divided by that constant
+     ELSE IF c.rmsest = "madstd" /\ \E rq \in incl : LET g == good(rq[1], rq[2])  NA(x) == IF x < 0 THEN -x ELSE x IN
+               ~Near(4 * c.madmesh[rq[1] + 1][rq[2] + 1], S * Median2([p \in g |-> NA(2 * v[p] - Median2(v, g))], g), 8) THEN "rms_mesh_is_mad_std_of_clipped_good_pixels"
      ELSE IF ~c.map_finite THEN "maps_finite_everywhere"
      ELSE IF Len(c.bkg) # h \/ Len(c.bkg[1]) # w THEN "maps_have_input_shape"
      ELSE IF \E p \in PixSetOf(c.coverage) : c.bkg[p[1] + 1][p[2] + 1] # c.fill_k \/ c.rms[p[1] + 1][p[2] + 1] # c.fill_k THEN "fill_value_on_coverage_mask"
